@@ -129,7 +129,7 @@ def families(eng, tier, seed):
             sub, _ = restrict(r, [i])
             key = regdsl.encode(sub)
             if unique_paths(sub) and len(sub) >= 3 and key not in seen and len(seen) < 4: seen.add(key); bases["%s@%d" % (n, i)] = sub
-    small = [n for n in bases if len(bases[n]) <= 20]
+    small = [n for n in bases if len(bases[n]) <= (20 if tier == "quick" else 60)]
     # (e) fault-free: Ok / DuplicateTypePath, never a panic - every corpus registry incl. the prelude extras
     for n, r in C.items():
         for si, sv in enumerate([STD, c01.settings_variants(tier)[1]]):
